@@ -19,7 +19,7 @@ RULE = ('enumerate every pair 0<=n<=m<=M (M=70 quick, 200 thorough; x~n when n==
 ASSUMPTIONS = ['terminals are distinct single characters so that the token count equals the repetition count',
                'inside terminals n=0 lets the terminal match the empty string (documented zero-width error), outside the property: not generated']
 
-KINDS = ('term', 'anon', 'rule', 'group', 'tmpl', 'interm')
+KINDS = ('term', 'anon', 'rule', 'group', 'tmpl', 'interm', 'altgroup')
 
 
 def grammar_for(kind, n, m):
@@ -34,6 +34,9 @@ def grammar_for(kind, n, m):
         return 'start: "<" (X Y)%s ">"\nX: "x"\nY: "y"' % rep, 'xy', 2
     if kind == 'tmpl':
         return 'start: "<" rp{X} ">"\nrp{it}: it%s\nX: "x"' % rep, 'x', 1
+    if kind == 'altgroup':
+        # the repeated item is an alternation: every occurrence must be free to pick its own alternative
+        return 'start: "<" (X | Y)%s ">"\nX: "x"\nY: "y"' % rep, 'ALT', 1
     if kind == 'interm':
         return 'start: "<" T ">"\nT: "x"%s' % rep, 'x', 1
     raise ValueError(kind)
@@ -65,7 +68,7 @@ def check_children(kind, t, k, per, case):
             if str(c.data).startswith('_') or c.data != 'a':
                 raise Violation('helper node visible in tree', case=case, k=k, node=str(c.data))
         else:
-            want = 'xy'[i % per] if kind == 'group' else 'x'
+            want = 'xy'[i % per] if kind == 'group' else ('xyyx'[i % 4] if kind == 'altgroup' else 'x')
             if str(c) != want:
                 raise Violation('children out of order', case=case, k=k, index=i, got=str(c))
 
@@ -82,7 +85,7 @@ def check(case, ctx):
     ctx.label('kind:' + kind, 'parser:' + parser, 'factored' if m >= 50 else 'naive')
     sparse = bool(case.get('sparse'))
     for k in ks_for(parser, n, m, sparse):
-        txt = '<' + unit * k + '>'
+        txt = '<' + (unit * k if unit != 'ALT' else ('xyyx' * k)[:k]) + '>'
         try:
             t = p.parse(txt); acc = True
         except UnexpectedInput:
@@ -106,6 +109,8 @@ def enum_pairs(M, parser, kinds):
                 for kind in kinds:
                     if kind == 'interm' and n == 0:
                         continue    # the terminal could match the empty string: outside the property
+                    if kind == 'altgroup' and 5 < m < 50:
+                        continue    # below the factoring threshold lark distributes the alternation into 2^k alternatives per count
                     i += 1
                     if i % nshards == shard:
                         yield {'kind': kind, 'n': n, 'm': m, 'parser': parser}
